@@ -70,7 +70,7 @@ def shrink(case, monitor):
 def run_shard(ctx):
     rnd = ctx.rnd
     mod = sys.modules[__name__]
-    n = 250 if ctx.tier == "quick" else 2500
+    n = 1000 if ctx.tier == "quick" else 6000
     maxops = 25 if ctx.tier == "quick" else 100
     for i in range(n):
         case = hh.gen_history(rnd, rnd.randint(1, maxops), prune=True, batch_p=0.3)
